@@ -743,6 +743,41 @@ pub mod rg {
             env_step();
         }
     }
+    /// any read-modify-write that can set `hashed` (swap / fetch_or / compare_exchange) is a publication of the flag too: the same
+    /// guarantee applies (the value must already be published), and the step is atomic (interference before and after only)
+    pub fn swap_bool(a: &AtomicBool, v: bool, _o: Ordering) -> bool {
+        unsafe {
+            env_step();
+            if is_shared_key(a.as_ptr() as *const u8) {
+                assert!(v, "guarantee: hashed is only ever set");
+                assert!(OWN_HASH_STORED && *(*KEYP).hash.as_ptr() == HVAL, "guarantee: hashed is set only after hash");
+            }
+            let old = *a.as_ptr();
+            *a.as_ptr() = v;
+            env_step();
+            old
+        }
+    }
+    pub fn fetch_or_bool(a: &AtomicBool, v: bool, o: Ordering) -> bool {
+        if v { swap_bool(a, true, o) } else { load_bool(a, o) }
+    }
+    pub fn cas_bool(a: &AtomicBool, cur: bool, new: bool, _s: Ordering, _f: Ordering) -> Result<bool, bool> {
+        unsafe {
+            env_step();
+            let old = *a.as_ptr();
+            if old == cur {
+                if is_shared_key(a.as_ptr() as *const u8) && new {
+                    assert!(OWN_HASH_STORED && *(*KEYP).hash.as_ptr() == HVAL, "guarantee: hashed is set only after hash");
+                }
+                *a.as_ptr() = new;
+                env_step();
+                Ok(old)
+            } else {
+                env_step();
+                Err(old)
+            }
+        }
+    }
     pub fn store_bool(a: &AtomicBool, v: bool, _o: Ordering) {
         unsafe {
             env_step();
@@ -767,6 +802,9 @@ pub mod rg {
     #[kani::unwind(3)]
     #[kani::stub(core::sync::atomic::Atomic::<bool>::load, load_bool)]
     #[kani::stub(core::sync::atomic::Atomic::<bool>::store, store_bool)]
+    #[kani::stub(core::sync::atomic::Atomic::<bool>::swap, swap_bool)]
+    #[kani::stub(core::sync::atomic::Atomic::<bool>::fetch_or, fetch_or_bool)]
+    #[kani::stub(core::sync::atomic::Atomic::<bool>::compare_exchange, cas_bool)]
     #[kani::stub(core::sync::atomic::Atomic::<u64>::load, load_u64)]
     #[kani::stub(core::sync::atomic::Atomic::<u64>::store, store_u64)]
     #[kani::stub(super::generate_key_hash, gkh_const)]
@@ -803,6 +841,9 @@ pub mod rg {
     #[kani::unwind(3)]
     #[kani::stub(core::sync::atomic::Atomic::<bool>::load, load_bool)]
     #[kani::stub(core::sync::atomic::Atomic::<bool>::store, store_bool)]
+    #[kani::stub(core::sync::atomic::Atomic::<bool>::swap, swap_bool)]
+    #[kani::stub(core::sync::atomic::Atomic::<bool>::fetch_or, fetch_or_bool)]
+    #[kani::stub(core::sync::atomic::Atomic::<bool>::compare_exchange, cas_bool)]
     #[kani::stub(core::sync::atomic::Atomic::<u64>::load, load_u64)]
     #[kani::stub(core::sync::atomic::Atomic::<u64>::store, store_u64)]
     #[kani::stub(super::generate_key_hash, gkh_const)]
